@@ -75,7 +75,7 @@ Proof.
 Qed.
 Lemma nf_trav_map ro k p es st : nofuel (trav_map ro k p es st).
 Proof.
-  unfold trav_map. destruct (is_wild k); [|nf_pure].
+  unfold trav_map, trav_map_pat. destruct (is_wild k); [|nf_pure].
   apply nf_bind; [apply nf_find_glob|]. intros idxs. nf_pure.
 Qed.
 Lemma nf_trav_index ro p items idx st : nofuel (trav_index ro p items idx st). Proof. unfold trav_index. nf_pure. Qed.
